@@ -262,6 +262,10 @@ MpasPadRows(rows, w, pad, n) ==      \* rows 0-based unpadded; stored 1-based; n
 MpasCellsOnCell(faces) == [ f \in 1..Len(faces) |-> [ j \in 1..Len(faces[f]) |->
                              LET o == FacesOfSide(faces, SideAt(faces[f], j)) \ { f }
                              IN IF o = {} THEN -1 ELSE (CHOOSE g \in o : TRUE) - 1 ] ]
+\* MPAS slot convention (measured on real files): edgesOnCell(j) joins verticesOnCell(j-1) and verticesOnCell(j),
+\* cellsOnCell(j) is the cell across edgesOnCell(j); likewise edgesOnVertex / cellsOnVertex on the dual.
+\* rows aligned "entry j belongs to side (j, j+1)" are therefore stored rotated by one slot.
+MpasSlots(rows) == [ r \in 1..Len(rows) |-> [ j \in 1..Len(rows[r]) |-> rows[r][IF j = 1 THEN Len(rows[r]) ELSE j - 1] ] ]
 MpasStored(m, d) ==
     LET E  == SrcEdges(m.faces)
         NF == SrcNodeFaces(m.faces, NN(m))
@@ -273,9 +277,9 @@ MpasStored(m, d) ==
          cellsOnVertex  |-> EncTable(NF, deg, 1, 0),
          centres        |-> ed,
          verticesOnEdge |-> IF ed THEN EncTable(E, 2, 1, 0) ELSE <<>>,
-         edgesOnCell    |-> IF ed THEN MpasPadRows(SrcFaceEdges(m.faces, E), Wd(m), d.pad, Len(E)) ELSE <<>>,
+         edgesOnCell    |-> IF ed THEN MpasPadRows(MpasSlots(SrcFaceEdges(m.faces, E)), Wd(m), d.pad, Len(E)) ELSE <<>>,
          cellsOnEdge    |-> IF ed THEN EncTable(SrcEdgeFaces(m.faces, E), 2, 1, 0) ELSE <<>>,
-         cellsOnCell    |-> IF ed THEN MpasPadRows(MpasCellsOnCell(m.faces), Wd(m), d.pad, Len(m.faces)) ELSE <<>>,
+         cellsOnCell    |-> IF ed THEN MpasPadRows(MpasSlots(MpasCellsOnCell(m.faces)), Wd(m), d.pad, Len(m.faces)) ELSE <<>>,
          areaCell       |-> IF ed THEN AreaTags(Len(m.faces)) ELSE <<>>,
          dvEdge         |-> IF ed THEN DvTags(Len(E)) ELSE <<>>,
          dcEdge         |-> IF ed THEN DcTags(Len(E)) ELSE <<>> ]
@@ -302,7 +306,7 @@ MpasDualStored(m, d) ==
          \* on the dual an edge's nodes are the two cells, its faces the two vertices
          cellsOnEdge    |-> IF ed THEN EncTable(E, 2, 1, 0) ELSE <<>>,
          verticesOnEdge |-> IF ed THEN EncTable(SrcEdgeFaces(m.faces, E), 2, 1, 0) ELSE <<>>,
-         edgesOnVertex  |-> IF ed THEN EncTable(SrcFaceEdges(m.faces, E), 3, 1, 0) ELSE <<>>,
+         edgesOnVertex  |-> IF ed THEN EncTable(MpasSlots(SrcFaceEdges(m.faces, E)), 3, 1, 0) ELSE <<>>,
          areaTriangle   |-> IF ed THEN AreaTags(Len(m.faces)) ELSE <<>>,
          dvEdge         |-> IF ed THEN DvTags(Len(E)) ELSE <<>>,
          dcEdge         |-> IF ed THEN DcTags(Len(E)) ELSE <<>> ]
@@ -551,6 +555,11 @@ Carried(m, route, d) ==
 \* judged by the relations of Mesh.tla instead of row by row
 CarryExact(route, d) == ~(route = "ugrid" /\ d.topo = "cfrole")
 
+\* is entry j of a carried face_edge row tied to a particular side of the face?  UGRID / from_topology tables are
+\* carried over row by row as stored.  MPAS stores edge j between corners j-1 and j; whether a reader re-aligns the
+\* row to the corner order is C02's matter - C01 demands the same edges for every face.
+FaceEdgeSlots(route) == IF route \in { "mpas", "mpas_dual" } THEN "free" ELSE "fixed"
+
 \* abstract facts about a case that known-finding signatures may refer to (all decided here)
 Tags(m, route, d) ==
     [ mixed |-> ~Uniform(m), node0_unused |-> Node0Unused(m), partial |-> ~IsClosed(m),
@@ -681,7 +690,9 @@ ExtrasRoundTrip == IsCase =>
          [] route = "mpas" ->
               /\ MpasDecodeZeros(src.cellsOnVertex) = Pad(SrcNodeFaces(M.faces, NN(M)), Len(src.cellsOnVertex[1]))
               /\ (Has(c, "edge_node") => MpasDecodeZeros(src.verticesOnEdge) = c.edge_node)
-              /\ (Has(c, "face_edge") => MpasDecodeCounted(src.edgesOnCell, src.nEdgesOnCell) = c.face_edge)
+              \* the same edges per cell; which slot holds which is the format's convention, not C01's concern
+              /\ (Has(c, "face_edge") => LET T == MpasDecodeCounted(src.edgesOnCell, src.nEdgesOnCell) IN
+                     Len(T) = Len(c.face_edge) /\ \A r \in 1..Len(T) : Range(Unpadded(T[r])) = Range(Unpadded(c.face_edge[r])))
               /\ (Has(c, "edge_face") => MpasDecodeZeros(src.cellsOnEdge) = c.edge_face)
               /\ (Has(c, "face_face") => LET T == MpasDecodeCounted(src.cellsOnCell, src.nEdgesOnCell) IN
                      Len(T) = Len(c.face_face) /\ \A r \in 1..Len(T) : \A g \in 0..(Len(T) - 1) :
@@ -689,7 +700,8 @@ ExtrasRoundTrip == IsCase =>
          [] route = "mpas_dual" ->
               /\ (Has(c, "node_face") => MpasDecodeCounted(src.verticesOnCell, src.nEdgesOnCell) = c.node_face)
               /\ (Has(c, "edge_node") => MpasDecodeZeros(src.cellsOnEdge) = c.edge_node)
-              /\ (Has(c, "face_edge") => MpasDecodeZeros(src.edgesOnVertex) = c.face_edge)
+              /\ (Has(c, "face_edge") => LET T == MpasDecodeZeros(src.edgesOnVertex) IN
+                     Len(T) = Len(c.face_edge) /\ \A r \in 1..Len(T) : Range(Unpadded(T[r])) = Range(Unpadded(c.face_edge[r])))
               /\ (Has(c, "edge_face") => MpasDecodeZeros(src.verticesOnEdge) = c.edge_face)
          [] route = "icon" ->
               LET sameSets(A, B) == Len(A) = Len(B) /\ \A r \in 1..Len(A) : Range(Unpadded(A[r])) = Range(Unpadded(B[r]))
@@ -713,6 +725,7 @@ EmitCase == IsCase =>
                         keeps_ids |-> KeepsNodeIds(route),
                         carried |-> Carried(M, route, d),
                         carry_exact |-> CarryExact(route, d),
+                        fe_slots |-> FaceEdgeSlots(route),
                         complete |-> Complete(M, route, d),
                         plan |-> Plan(M, route, d),
                         modes |-> [ i \in 1..Len(Plan(M, route, d)) |-> StepMode(route, Plan(M, route, d)[i]) ],
